@@ -361,7 +361,7 @@ fn fractional_index_case(ctx: &mut Ctx, rng: &mut Rng) {
 
 /// Wide and deep shapes: lists, argument lists and subscript chains around the sizes at which inline buffers
 /// spill (8/9, 16/17, 32/33). One program per (shape, size).
-fn wide_program(idx: u64) -> Option<Program> {
+pub fn wide_program(idx: u64) -> Option<Program> {
     const SIZES: &[usize] = &[7, 8, 9, 10, 15, 16, 17, 31, 32, 33, 65];
     let shape = (idx as usize) / SIZES.len();
     let n = SIZES[(idx as usize) % SIZES.len()];
